@@ -270,8 +270,14 @@ def check_raw(case, rec):
                         'props': [['wf_start_time', 'ts', case['prop']]]}],
            'active': [[p, 'ts', len(vals)]], 'nchunks': case['chunks'] if vals else 0,
            'data': {p: [blob] * case['chunks'] if vals else []}}
+    if vals and case['chunks'] == 2:
+        # the second chunk holds the values in reverse order, so that chunks differ
+        rblob = b''.join(struct.pack('<Qq', f, s) for (s, f) in reversed(vals))
+        seg['data'][p] = [blob, rblob]
     data, _i, _l = encode_file({'segments': [seg]})
     want = vals * (case['chunks'] if vals else 0)
+    if vals and case['chunks'] == 2:
+        want = vals + vals[::-1]
     try:
         tf = TdmsFile.read(io.BytesIO(data), raw_timestamps=True)
         out = io.BytesIO()
@@ -298,6 +304,22 @@ def check_raw(case, rec):
                     rec.violation('window_conversion', 'as_datetime64 of window [%d:%d] element %d gives %d us, exact %s' % (
                         lo, hi, i, int(conv[i]), float(exact_units(sec, frac, 10 ** 6))))
                     break
+    # streamed raw chunks (lazily opened file): all collected first, looked at afterwards - they must survive bit-exactly
+    try:
+        with TdmsFile.open(io.BytesIO(data), raw_timestamps=True) as lz:
+            chunks = [c[:] for c in lz['g']['ts'].data_chunks()]
+            fchunks = [c['g']['ts'][:] for c in lz.data_chunks()]
+            first = lz['g']['ts'][0] if vals else None
+            lz['g']['ts'][:]
+        for nm, cs in (('channel', chunks), ('file', fchunks)):
+            got = [(int(d['seconds'][i]), int(d['second_fractions'][i])) for d in cs for i in range(len(d))]
+            if got != want:
+                rec.violation('raw_exact:%s_chunks' % nm, 'raw timestamp chunks collected from the %s stream hold %r, expected %r' % (
+                    nm, got[:4], want[:4]))
+        if first is not None and (first.seconds, first.second_fractions) != want[0]:
+            rec.violation('raw_exact:item', 'first raw timestamp %r changed to %r after later reads' % (want[0], first))
+    except Exception as e:      # noqa
+        rec.violation('raw:raised', describe_exc(e), key=exc_key(e))
     for name, f in (('read', tf), ('defragment', tf2)):
         ch = f['g']['ts']
         d = ch[:]
